@@ -6,6 +6,7 @@ package main
 import (
 	"context"
 	"fmt"
+	"github.com/marekgalovic/anndb/storage"
 	"strings"
 	"time"
 )
@@ -19,13 +20,13 @@ type szPart struct {
 	Fail  bool   `json:"fail"`
 }
 type szCase struct {
-	Asked uint64   `json:"asked"`
-	Down  []uint64 `json:"down"`
-	Parts []szPart `json:"parts"`
-	Obs   string   `json:"obs"`
-	Len   uint64   `json:"len"`
-	Bytes uint64   `json:"bytes"`
-	Determined bool `json:"determined"`
+	Asked      uint64   `json:"asked"`
+	Down       []uint64 `json:"down"`
+	Parts      []szPart `json:"parts"`
+	Obs        string   `json:"obs"`
+	Len        uint64   `json:"len"`
+	Bytes      uint64   `json:"bytes"`
+	Determined bool     `json:"determined"`
 }
 
 func runC17(a *args) error {
@@ -115,6 +116,38 @@ func runC17(a *args) error {
 			if len(remoteSizes) >= 2 && !seen[key] {
 				seen[key] = true
 				st.DistinctNontrivial++
+			}
+		}
+		// a stale placement view: the asked node still believes partition 0 is on its old host, which has meanwhile been
+		// told (by the catalogue) that the partition moved away and keeps only an abandoned copy. The old host must refuse
+		// the lookup, so the call fails; it must not report a sum that misses or under-counts the partition
+		if !replicated && a.replay == "" {
+			oldHost := d.placement[0][0]
+			var asked, newHost uint64
+			for _, n := range nodes {
+				if n != oldHost && asked == 0 {
+					asked = n
+				} else if n != oldHost {
+					newHost = n
+				}
+			}
+			moved := cloneDataset(d.meta)
+			moved.Partitions[0].NodeIds = []uint64{newHost}
+			hn := d.c.nodes[oldHost]
+			stale, err := storage.VerifNewDataset(moved, hn.db, hn.transport, hn.conn)
+			if err == nil {
+				live := hn.datasets[d.id]
+				hn.datasets[d.id] = stale
+				hn.dm = storage.VerifNewDatasetManager(stale)
+				ctx, cancel := context.WithTimeout(context.Background(), 2*time.Second)
+				l, bts, serr := d.c.nodes[asked].datasets[d.id].SizeInfo(ctx)
+				cancel()
+				st.count(fmt.Sprintf("stale-view:err=%v", serr != nil))
+				if serr == nil {
+					st.ImplFailures = append(st.ImplFailures, implFailure{Case: -1, What: fmt.Sprintf("node %d no longer holds partition 0 (its catalogue says it moved to node %d) and node %d still asks it: SizeInfo returned (%d, %d) with no error instead of failing", oldHost, newHost, asked, l, bts), Key: "sizeinfo-stale-host-answers", Input: map[string]interface{}{"old_host": oldHost, "asked": asked}})
+				}
+				hn.datasets[d.id] = live
+				hn.dm = storage.VerifNewDatasetManager(live)
 			}
 		}
 		d.c.close()
